@@ -714,5 +714,5 @@ func (a *qtArea) Gen(r *hx.Rng, n int, tier string, emit func(string)) {
 func main() {
 	debug.SetMaxStack(16 << 20) // a runaway split recursion dies quickly instead of after 1 GB
 	go watchdog()
-	hx.Main(map[string]hx.Area{"quadtree": &qtArea{}, "floatscan": fsArea{}})
+	hx.Main(map[string]hx.Area{"quadtree": &qtArea{}, "floatscan": fsArea{}, "intwrap": iwArea{}})
 }
